@@ -36,7 +36,10 @@ META = {
         "nested_render_text, on the renderer's own parser (self.md), with the shared environment (self.md_env) and the text "
         "parameter; the inline flag selects parseInline; a block parse of nested text runs with the front-matter rule disabled "
         "(inside a reset_rules() context, rule name checked against the library's block rules) unless the caller declares the "
-        "text a whole file, which only callers whose text is read from a file may do; no second engine is built and render() is "
+        "text a whole file, which only callers whose text is read from a file may do - and the value they pass must be false under "
+        "every option that can cut the beginning off that text (a re-binding of the text or its lines to a slice with a lower "
+        "bound; the option is named by the statement's guard or read by the bound's definition, also through helper returns): "
+        "only the real beginning of a file can be front matter; no second engine is built and render() is "
         "not re-entered; md/md_env "
         "are bound once from the constructor/setup_render parameters, and nothing markdown-it registered in md_env is taken out "
         "again, and every path to _render_tokens passes a tokenisation made in the same call (tokens cached by text are not the "
@@ -51,7 +54,9 @@ META = {
         "name/arguments/token.content to run_directive under the matching parameters. "
         "R3 node context: MockState.nested_parse renders beneath its node argument (not appended), MockInliner.parse into a "
         "fresh container whose children it returns, include and substitution in place, the div into a fresh appended container; "
-        "current_node_context appends (under its flag) before switching, switches, and restores the saved node. "
+        "current_node_context appends (under its flag) before switching, switches, and restores the saved node; the transform "
+        "that hides nested transitions from docutils' Transitions leaves a transition visible only when climbing `.parent` "
+        "through every section ancestor ends at the document (a `while` over sections, not a test of the direct parent). "
         "R4 state: every piece of renderer/document/env state changed around a nested render is put back to the value saved "
         "before it (the restore runs at least whenever the change ran, and only where the saved value exists) - in the context "
         "manager entered around _render_tokens (closure or method; followed through helpers) and in "
@@ -81,7 +86,9 @@ META = {
         "utf-8-sig), as docutils' input layer does for the document itself; every statement that takes a ':'-line off the front of "
         "the content into the option block is guarded by a test on that line which excludes a line opening a ':::' fence "
         "(startswith tests, a predicate helper, or a regex - literal, local or module constant - read through re._parser: a colon "
-        "after optional blanks followed by a negative lookahead for more colons). "
+        "after optional blanks followed by a negative lookahead for more colons); MockState.block_quote, which nested-parses only "
+        "a prefix of its lines, hands a tail slice of the same lines to a rendering call, and takes attribution continuation "
+        "lines only while the line is not blank. "
         "R7 rule lookups: a test '<rule>' in md.get_active_rules()[<chain>] names a rule that markdown-it or a configured plugin "
         "registers on that chain (catalogue read from the library sources); a rule looked up in the wrong chain is a constant test. "
         "R8 input limits: a per-line limit that the docutils front end checks on the document text (settings.line_length_limit) "
@@ -100,7 +107,7 @@ META = {
         "slice after it) belong to the directive-text split and are decided by C08.R4 / C08.R6, not here. That a thematic break "
         "nested in a block quote / list item / directive body survives docutils' Transitions transform in place (repair 2ea1b0a: "
         "HideNestedTransitions registered before Transitions in both front ends) is the subject of C03.R1 / C01.R17, which model "
-        "that repair; C06 has no further structural clause on it."
+        "that repair; C06.R3 adds only the obligation that the hider climbs through section ancestors (81b6fce)."
     ),
     "trusted_base": [
         "CPython ast",
@@ -738,6 +745,30 @@ def r1_one_engine(corpus: Corpus, rep: Report, tier: str):
                 rep.ok("C06.R1", k, fi.module.site(call), "the text is read from a file (its front matter is discarded)")
             else:
                 rep.violation("C06.R1", k, fi.module.site(call), f"{pn}={unparse(a_)} for text that is not a whole file: a body starting with '---' ... '---' is taken as front matter and dropped instead of being rendered as at top level")
+                continue
+            # ... and only for text that still starts where the file starts: every option that can cut the beginning
+            # off the text must switch the parameter off
+            cuts = _start_cut_options(fi, is_read_)
+            from ..flow import facts as _facts
+
+            e_ = _deref(a_, fi) or a_
+            neg = [t for t, pol in _facts(e_, True) if not pol]
+            for opt, cut_node, cut_f in cuts:
+                k2 = f"{fi.fq}|{pn} is off when :{opt}: cuts the beginning off the file"
+                if isinstance(e_, ast.Constant) and e_.value:
+                    covered = False
+                else:
+                    covered = any(_reads_option(t, fi, opt) for t in neg)
+                if covered:
+                    rep.ok("C06.R1", k2, fi.module.site(call), f"`{short(e_, 60)}` is false when the option is given")
+                else:
+                    rep.violation(
+                        "C06.R1",
+                        k2,
+                        fi.module.site(call),
+                        f"{pn}={short(e_, 60)} can be true although `{short(cut_node, 50)}` ({cut_f.module.site(cut_node)}) removed the beginning of the file under :{opt}:: a selection that starts "
+                        "with a thematic break '---' and contains a second one is then taken as YAML front matter and silently dropped, while the same text written in place renders both breaks and the text between them",
+                    )
 
     # (b) fresh engines inside render code
     for fi in corpus.all_functions():
@@ -948,6 +979,99 @@ def r1_one_engine(corpus: Corpus, rep: Report, tier: str):
     else:
         rep.violation("C06.R1", k, it.site(), "MockState.inline_text does not hand its text to MockInliner.parse")
     rep.expect_min("C06.R1", 12, "engine calls, md/md_env bindings, _render_tokens callers, nested entries")
+
+
+def _option_reads(e: ast.AST) -> set[str]:
+    """Option names read directly in ``e``: ``<x>.options.get("k")``, ``<x>.options["k"]``, ``"k" in <x>.options``."""
+    out = set()
+    for x in ast.walk(e):
+        if isinstance(x, ast.Call) and isinstance(x.func, ast.Attribute) and x.func.attr == "get" and isinstance(x.func.value, ast.Attribute) and x.func.value.attr == "options" and x.args and isinstance(x.args[0], ast.Constant):
+            out.add(x.args[0].value)
+        elif isinstance(x, ast.Subscript) and isinstance(x.value, ast.Attribute) and x.value.attr == "options" and isinstance(x.slice, ast.Constant):
+            out.add(x.slice.value)
+        elif isinstance(x, ast.Compare) and isinstance(x.left, ast.Constant) and any(isinstance(o, (ast.In, ast.NotIn)) for o in x.ops) and any(isinstance(c, ast.Attribute) and c.attr == "options" for c in x.comparators):
+            out.add(x.left.value)
+    return out
+
+
+def _reads_option(e: ast.AST, fi: FunctionInfo, opt: str, depth: int = 0) -> bool:
+    """``e`` tests the option: it reads it, or is a local that some definition binds directly from a read of it -
+    also when that definition lives in a package helper whose (tuple element of the) return value the local receives."""
+    if opt in _option_reads(e):
+        return True
+    for x in ast.walk(e):
+        if not (isinstance(x, ast.Name) and x.id not in fi.params):
+            continue
+        for st, v in _local_defs(fi, x.id):
+            if opt in _option_reads(v):
+                return True
+            if depth < 2 and isinstance(v, ast.Call):
+                h = _package_callee(v, fi)
+                if h is None or h.is_lambda or h.fq == fi.fq:
+                    continue
+                idx = None
+                if isinstance(st, ast.Assign) and len(st.targets) == 1 and isinstance(st.targets[0], ast.Tuple):
+                    names = [t.id if isinstance(t, ast.Name) else None for t in st.targets[0].elts]
+                    idx = (len(names), names.index(x.id)) if x.id in names else None
+                for r in h.local_nodes():
+                    if isinstance(r, ast.Return) and r.value is not None:
+                        rv = r.value.elts[idx[1]] if idx is not None and isinstance(r.value, ast.Tuple) and len(r.value.elts) == idx[0] else r.value
+                        if _reads_option(rv, h, opt, depth + 1):
+                            return True
+    return False
+
+
+def _start_cut_options(fi: FunctionInfo, is_read) -> list[tuple[str, ast.AST, FunctionInfo]]:
+    """Options under which the text read from the file loses its beginning before it is rendered: a re-binding of the
+    text (or of its list of lines) to a slice with a lower bound.  The option is named by the guard of that statement
+    (``kind == "start-after"``) or read directly by the definition of the bound that reaches it."""
+    scope = {fi.fq: fi}
+    for x in fi.local_nodes():
+        if isinstance(x, ast.Call):
+            h = _package_callee(x, fi)
+            if h is not None and not h.is_lambda and _owner_class(h) is not None and _owner_class(fi) is not None and _owner_class(h).fq == _owner_class(fi).fq:
+                scope.setdefault(h.fq, h)
+    out: list[tuple[str, ast.AST, FunctionInfo]] = []
+    seen = set()
+    for f in scope.values():
+        seeds = set()
+        for names, val in _bindings(f):
+            if any(is_read(y) for y in ast.walk(val)):
+                seeds |= names
+        if f.fq != fi.fq:
+            seeds |= set(_pos_params(f))
+        carriers = _forward(f, seeds)
+        if not carriers:
+            continue
+        cfg = get_cfg(f)
+        for n in f.local_nodes():
+            if not (isinstance(n, ast.Subscript) and isinstance(n.slice, ast.Slice) and n.slice.lower is not None and _names_in(n.value) & carriers):
+                continue
+            lo = n.slice.lower
+            if isinstance(lo, ast.Constant) and not lo.value:
+                continue
+            st = cfg.stmt_of(n)
+            if not (isinstance(st, (ast.Assign, ast.AugAssign, ast.AnnAssign)) and ({x.id for t in (st.targets if isinstance(st, ast.Assign) else [st.target]) for x in ast.walk(t) if isinstance(x, ast.Name)} & carriers)):
+                continue  # a slice that is only looked at (counted, tested) does not cut the text
+            opts: set[str] = set()
+            for t, pol in cfg.guards(st):
+                if pol and isinstance(t, ast.Compare) and len(t.ops) == 1 and isinstance(t.ops[0], ast.Eq):
+                    for side in (t.left, t.comparators[0]):
+                        if isinstance(side, ast.Constant) and isinstance(side.value, str):
+                            opts.add(side.value)
+            if not opts:
+                for x in ast.walk(lo):
+                    if isinstance(x, ast.Name):
+                        r = _reaching_def(f, x.id, st)
+                        vals = [r[1]] if r is not None else [v for _, v in _local_defs(f, x.id)]
+                        for v in vals:
+                            opts |= _option_reads(v)
+                opts |= _option_reads(lo)
+            for o in sorted(opts):
+                if o not in seen:
+                    seen.add(o)
+                    out.append((o, n, f))
+    return out
 
 
 def callers_nrt_list(g, nrt: FunctionInfo) -> list[tuple[FunctionInfo, ast.Call]]:
@@ -1195,6 +1319,74 @@ def r2_sibling_fences(corpus: Corpus, rep: Report, tier: str):
 # R3 node context
 
 
+def _r3_nested_transitions(corpus: Corpus, rep: Report) -> None:
+    """docutils' Transitions transform moves a transition that ends a section up and out of it (and asserts on other
+    parents): a thematic break written inside a directive body / block quote stays where it was written only if it is
+    hidden from that transform unless its chain of *section* ancestors ends at the document itself."""
+    tm = corpus.mod("mdit_to_docutils.transforms")
+    hiders = []
+    for ci in tm.classes.values():
+        ap = ci.methods.get("apply")
+        if ap is None:
+            continue
+        # the hider walks over the transitions that exist in the document and replaces each found node by a pending node
+        is_trans_ref = lambda n: isinstance(n, ast.Attribute) and n.attr == "transition" and tm.resolve(dotted(n) or "").endswith("nodes.transition") and not (isinstance(parent(n), ast.Call) and parent(n).func is n)
+        for loop in [n for n in ap.local_nodes() if isinstance(n, ast.For) and isinstance(n.target, ast.Name)]:
+            if any(is_trans_ref(x) for x in ast.walk(loop.iter)) and any(
+                isinstance(x, ast.Call) and isinstance(x.func, ast.Attribute) and x.func.attr in ("replace_self", "replace") and loop.target.id in _names_in(x) for x in ast.walk(loop)
+            ) and any(isinstance(x, ast.Call) and tm.resolve(dotted(x.func) or "").endswith("nodes.pending") for x in ast.walk(loop)):
+                hiders.append(ap)
+                break
+    if len(hiders) != 1:
+        raise Unsupported(f"transforms.py: expected one transform that hides nodes.transition from docutils, found {len(hiders)}")
+    ap = hiders[0]
+    cfg = get_cfg(ap)
+    k = f"{ap.fq}|a transition is left to docutils only when its section ancestors end at the document"
+    hide = [n for n in ap.local_nodes() if isinstance(n, ast.Call) and isinstance(n.func, ast.Attribute) and n.func.attr in ("replace_self", "replace", "remove")]
+    is_cls = lambda e, name: any(isinstance(x, ast.Attribute) and x.attr == name for x in ast.walk(e))
+    verdicts = []
+    for h in hide:
+        st = cfg.stmt_of(h)
+        tests = [(t, pol) for t, pol in cfg.guards(st) if isinstance(t, ast.Call) and dotted(t.func) == "isinstance" and len(t.args) == 2]
+        vis = [(t, pol) for t, pol in tests if not pol and is_cls(t.args[1], "document")]
+        if not vis:
+            verdicts.append((False, h, "the hiding is not conditional on `not isinstance(<ancestor>, nodes.document)`"))
+            continue
+        t = vis[0][0]
+        if is_cls(t.args[1], "section"):
+            verdicts.append((False, t, f"`{short(t, 60)}` also leaves a transition visible whose parent is a section - including a section opened by a heading inside a directive body"))
+            continue
+        subj = t.args[0]
+        climbed = False
+        if isinstance(subj, ast.Name):
+            for w in ap.local_nodes():
+                if isinstance(w, ast.While) and isinstance(w.test, ast.Call) and dotted(w.test.func) == "isinstance" and len(w.test.args) == 2 and unparse(w.test.args[0]) == subj.id and is_cls(w.test.args[1], "section"):
+                    if any(isinstance(b, ast.Assign) and unparse(b.targets[0]) == subj.id and unparse(b.value) == f"{subj.id}.parent" for b in ast.walk(w)) and cfg.dominates(w, st):
+                        climbed = True
+            if not climbed:
+                h_call = next((v for _, v in _local_defs(ap, subj.id) if isinstance(v, ast.Call) and _package_callee(v, ap) is not None), None)
+                if h_call is not None:
+                    hf = _package_callee(h_call, ap)
+                    climbed = any(isinstance(w, ast.While) and is_cls(w.test, "section") and any(isinstance(x, ast.Attribute) and x.attr == "parent" for x in ast.walk(w)) for w in hf.local_nodes())
+        if climbed:
+            verdicts.append((True, t, f"`{short(t, 50)}` after climbing through every section ancestor"))
+        else:
+            verdicts.append((False, t, f"`{short(t, 60)}` looks at one ancestor only; it is not reached by climbing `.parent` while the ancestor is a section"))
+    if not verdicts:
+        raise Unsupported(f"{ap.qualname}: no statement that hides the transition found")
+    bad = [v for v in verdicts if not v[0]]
+    if bad:
+        rep.violation(
+            "C06.R3",
+            k,
+            ap.module.site(bad[0][1]),
+            f"{bad[0][2]}: a thematic break written last in the body of a directive that allows headings (```{{only}} latex / ## Sub / text / ---```) sits in a section nested in the directive; "
+            "docutils' Transitions transform moves it up and out, so it is rendered after the directive instead of inside it, unlike the same text at top level",
+        )
+    else:
+        rep.ok("C06.R3", k, ap.module.site(verdicts[0][1]), verdicts[0][2])
+
+
 def _innermost_context(call: ast.Call, fi: FunctionInfo, cnc: FunctionInfo, corpus: Corpus):
     """The closest enclosing ``with <renderer>.current_node_context(X[, append])`` -> (X, append expr|None) or None."""
     g = get_callgraph(corpus)
@@ -1343,7 +1535,8 @@ def r3_node_context(corpus: Corpus, rep: Report, tier: str):
             rep.violation("C06.R3", k, cnc.module.site(apps[0]), "the append is not (guarded by the append flag, of the node argument, before the switch): the node would be attached to itself or unconditionally")
     else:
         rep.error("C06.R3", "current_node_context: expected exactly one self.current_node.append(node)")
-    rep.expect_min("C06.R3", 8, "six judged nested_render_text sites and three context-manager obligations")
+    _r3_nested_transitions(corpus, rep)
+    rep.expect_min("C06.R3", 9, "six judged nested_render_text sites, three context-manager obligations, the transition hider")
 
 
 # ---------------------------------------------------------------------------
@@ -2733,6 +2926,53 @@ def r6_text_conserved(corpus: Corpus, rep: Report, tier: str):
             if m.get(2) is not None:
                 sinks.append(m[2])
     _text_conserved(rep, pdb, {_pos_params(pdb)[0]}, sinks, "the content handed to parse_directive_block", "parse_directive_text")
+    # 4b. a mock that splits the block it was given (block quote + attribution) renders all of it
+    bq = corpus.func("mocking:MockState.block_quote")
+    P = _pos_params(bq)[0]
+    cfg_b = get_cfg(bq)
+    renders = lambda c: any(t.fq == bq.fq or nrt.fq in g.reachable([t], stop=lambda f: f.fq == nrt.fq) for t in g.flat_targets(g.resolve_call(c, bq)))
+    is_prefix = lambda x: isinstance(x, ast.Subscript) and isinstance(x.slice, ast.Slice) and isinstance(x.value, ast.Name) and x.value.id == P and x.slice.lower is None and x.slice.upper is not None
+    is_tail = lambda x: isinstance(x, ast.Subscript) and isinstance(x.slice, ast.Slice) and isinstance(x.value, ast.Name) and x.value.id == P and x.slice.lower is not None and x.slice.upper is None and x.slice.step is None
+    prefix_rendered = False
+    for c in _fn_calls(bq):
+        if renders(c) and c.args and _derives(c.args[0], bq, is_prefix):
+            prefix_rendered = True
+    k = f"{bq.fq}|the lines after the attribution are rendered too"
+    if not prefix_rendered:
+        rep.ok("C06.R6", k, bq.site(), "the block is not cut before it is rendered")
+    else:
+        tail_calls = [c for c in _fn_calls(bq) if renders(c) and c.args and any(is_tail(x) for x in ast.walk(c.args[0]))]
+        if tail_calls:
+            rep.ok("C06.R6", k, bq.module.site(tail_calls[0]), short(tail_calls[0], 70))
+        else:
+            rep.violation(
+                "C06.R6",
+                k,
+                bq.site(),
+                f"only a prefix `{P}[:i]` of the block is nested-parsed (plus the attribution); no tail `{P}[j:]` of the block is handed to a rendering call: every block written after the "
+                "'-- Author' line of an {epigraph}/{highlights}/{pull-quote} body is silently missing from the output",
+            )
+    # the attribution ends at a blank line: what follows is the next block, not more attribution
+    k = f"{bq.fq}|a blank line ends the attribution"
+    judged = False
+    for loop in [n for n in bq.local_nodes() if isinstance(n, ast.For) and any(is_tail(x) for x in ast.walk(n.iter)) and isinstance(n.target, ast.Name)]:
+        for ap_ in [n for n in ast.walk(loop) if isinstance(n, ast.Call) and isinstance(n.func, ast.Attribute) and n.func.attr in ("append", "extend")]:
+            judged = True
+            st_ = cfg_b.stmt_of(ap_)
+            nonblank = [t for t, pol in cfg_b.guards(st_) if pol and isinstance(t, ast.Call) and isinstance(t.func, ast.Attribute) and t.func.attr == "strip" and loop.target.id in _names_in(t)]
+            if nonblank:
+                rep.ok("C06.R6", k, bq.module.site(ap_), f"continuation lines are taken only while `{short(nonblank[0], 30)}`")
+            else:
+                rep.violation(
+                    "C06.R6",
+                    k,
+                    bq.module.site(ap_),
+                    f"`{short(st_, 60)}` takes continuation lines of the attribution without testing that the line is not blank: the blank line after '-- Author' and the blocks "
+                    "that follow it are swallowed into the attribution text instead of being rendered",
+                )
+    if not judged and prefix_rendered:
+        raise Unsupported("block_quote: the loop that collects the attribution's continuation lines was not found")
+
     # 5. include
     inc = corpus.func("mocking:MockIncludeDirective.run")
     seeds = set()
@@ -3344,6 +3584,42 @@ def mutants(corpus: Corpus):
     else:
         out.append(("c06-option-loop-takes-fence-opener", "the loop test excluding ':::' lines was not found"))
 
+    # ---- round 14
+    # e2aca75: front matter only at the real beginning of the file
+    c = find_node(inc, lambda n: is_call(n, "nested_render_text"))
+    afm = next((k_ for k_ in c.keywords if k_.arg == "allow_front_matter"), None) if c is not None else None
+    add("c06-revert-e2aca75-front-matter-for-any-selection", "C06.R1", mk, afm.value if afm else None, "True", "is off when")
+    add("c06-front-matter-off-for-start-line-only", "C06.R1", mk, afm.value if afm else None, "not startline", "is off when :start-after:")
+    add("c06-front-matter-off-for-start-after-only", "C06.R1", mk, afm.value if afm else None, 'not self.options.get("start-after")', "is off when :start-line:")
+    # cf2d18a: the block after an attribution
+    bq = mk.func("MockState.block_quote")
+    rec = find_node(bq, lambda n: isinstance(n, ast.AugAssign) and is_call(n.value, "block_quote"))
+    add("c06-revert-cf2d18a-lines-after-attribution-dropped", "C06.R6", mk, rec, "pass", "after the attribution are rendered")
+    tail = find_node(bq, lambda n: isinstance(n, ast.Subscript) and isinstance(n.slice, ast.Slice) and n.slice.upper is None and n.slice.lower is not None and isinstance(parent(n), ast.Call) and is_call(parent(n), "block_quote"))
+    add("c06-rest-taken-from-the-quote-lines-only", "C06.R6", mk, tail.value if tail is not None else None, "blockquote_lines", "after the attribution are rendered")
+    brk = find_node(bq, lambda n: isinstance(n, ast.If) and isinstance(n.test, ast.BoolOp) and isinstance(n.test.op, ast.Or) and any(isinstance(x, ast.Break) for x in n.body) and any(unparse(v).startswith("not ") and ".strip()" in unparse(v) for v in n.test.values))
+    if brk is not None:
+        keep = [v for v in brk.test.values if not (unparse(v).startswith("not ") and ".strip()" in unparse(v))]
+        add("c06-attribution-swallows-blank-lines", "C06.R6", mk, brk.test, " or ".join(_seg(mk, v) for v in keep), "a blank line ends the attribution")
+    else:
+        out.append(("c06-attribution-swallows-blank-lines", "the break test of the attribution loop was not found"))
+    # 81b6fce: transitions in sections nested in a directive body
+    tm = corpus.mod("mdit_to_docutils.transforms")
+    hap = tm.func("HideNestedTransitions.apply") if "HideNestedTransitions.apply" in tm.functions else None
+    if hap is not None:
+        wl = find_node(hap, lambda n: isinstance(n, ast.While))
+        vis = find_node(hap, lambda n: isinstance(n, ast.If) and "isinstance" in unparse(n.test) and "document" in unparse(n.test))
+        if wl is not None and vis is not None:
+            # revert: look at the direct parent only, sections count as fine
+            src = splice(tm.src, vis.test, "not isinstance(node.parent, nodes.document | nodes.section)")
+            out.append(Mutant("c06-revert-81b6fce-direct-parent-only", "C06.R3", tm.rel, src, expect="section ancestors end at the document"))
+            # partial: climbs one level only
+            add("c06-hider-climbs-one-section-only", "C06.R3", tm, wl, "if " + _seg(tm, wl.test) + ":\n" + "".join(_indent(tm, b_) + _seg(tm, b_) + "\n" for b_ in wl.body).rstrip("\n"), "section ancestors end at the document")
+        else:
+            out.append(("c06-revert-81b6fce-direct-parent-only", "while/if of the hider not found"))
+    else:
+        out.append(("c06-revert-81b6fce-direct-parent-only", "HideNestedTransitions.apply not found"))
+
     # ---- R5
     run = base.func(R + "run_directive")
     ctor = find_node(run, lambda n: isinstance(n, ast.Call) and {"content_offset", "block_text"} <= {k.arg for k in n.keywords})
@@ -3388,8 +3664,18 @@ def mutants(corpus: Corpus):
     add("c06-revert-21f23ad-helper-splits-universally", "C06.R6", dm, sp, f"{_seg(dm, sp.func.value)}.splitlines()" if sp is not None else "", "applied to")
     c = find_node(np_, lambda n: is_call(n, "nested_render_text"))
     add("c06-nested-parse-strips-block", "C06.R6", mk, c.args[0] if c and c.args else None, f"{_seg(mk, c.args[0])}.strip()" if c and c.args else "", "strip() applied")
-    a = find_node(inc, lambda n: isinstance(n, ast.Subscript) and isinstance(n.slice, ast.Slice) and isinstance(n.value, ast.Call) and _splits_lines(n.value, inc) is not None)
-    add("c06-revert-21f23ad-include-slice-with-splitlines", "C06.R6", mk, a.value if a is not None else None, f"{_seg(mk, a.value.args[0])}.splitlines()" if a is not None and a.value.args else (_seg(mk, a.value) if a is not None else ""), "splitlines() applied")
+    def lines_of(n):
+        """the call that splits the file text into the lines that ``n`` (a sliced expression) names"""
+        if isinstance(n, ast.Call) and _splits_lines(n, inc) is not None:
+            return n
+        if isinstance(n, ast.Name):
+            ds = [v for _, v in _local_defs(inc, n.id) if isinstance(v, ast.Call) and _splits_lines(v, inc) is not None]
+            return ds[0] if len(ds) == 1 else None
+        return None
+
+    a = find_node(inc, lambda n: isinstance(n, ast.Subscript) and isinstance(n.slice, ast.Slice) and lines_of(n.value) is not None and isinstance(parent(n), ast.Call))
+    sc = lines_of(a.value) if a is not None else None
+    add("c06-revert-21f23ad-include-slice-with-splitlines", "C06.R6", mk, sc, f"{_seg(mk, sc.args[0])}.splitlines()" if sc is not None and sc.args else "", "splitlines() applied")
     add("c06-include-rstrips-lines", "C06.R6", mk, a, f"[ln.rstrip() for ln in {_seg(mk, a)}]" if a is not None else "", "rstrip() applied")
     c = find_node(inc, lambda n: is_call(n, "read_text"))
     add("c06-include-expands-tabs", "C06.R6", mk, c, f"{_seg(mk, c)}.expandtabs(8)" if c is not None else "", "expandtabs() applied")
